@@ -124,5 +124,7 @@ func alphabet() []Op {
 		}
 	}
 	ops = append(ops, Op{K: "exp", L: "D", S: 1})
+	// a lease of 4 294 968 s (~49.7 days): the smallest whose millisecond value (+500) needs more than 32 bits
+	ops = append(ops, Op{K: "exp", L: "A", S: 4294968})
 	return ops
 }
